@@ -52,6 +52,13 @@ func (vc *FuncVC) protected(comp string) bool {
 	if strings.Contains(comp, "#L") {
 		return true
 	}
+	if vc.C != nil {
+		for _, d := range vc.C.Stable {
+			if d == "comp:"+comp {
+				return true
+			}
+		}
+	}
 	switch {
 	case strings.HasPrefix(comp, "IT!"), strings.HasPrefix(comp, "LG!"), comp == "clock":
 		return true
